@@ -329,6 +329,52 @@ func checkC01(args []string) {
 			run.Sample(map[string]any{"case": name, "file_bytes": len(out)})
 		}
 	}
+	// horizontally banded pictures: a quiet band (low-amplitude noise) over a busy one (full-range noise), the band
+	// edge on a multiple of the histogram tile size, 3..7 tile rows with a complete or partial last row: several
+	// prefix-code groups whose tile map is uniform except at the bottom
+	{
+		type band struct{ w, h, split, method int }
+		var bands []band
+		for _, m := range []int{0, 2, 4} {
+			for _, w := range []int{64, 128} {
+				for _, g := range [][2]int{{384, 256}, {896, 768}, {96, 64}, {300, 256}, {224, 192}, {160, 32}} {
+					bands = append(bands, band{w, g[0], g[1], m})
+				}
+			}
+		}
+		for i, b := range bands {
+			_ = i
+			img := image.NewNRGBA(image.Rect(0, 0, b.w, b.h))
+			for y := 0; y < b.h; y++ {
+				for x := 0; x < b.w; x++ {
+					o := img.PixOffset(x, y)
+					if y < b.split {
+						img.Pix[o], img.Pix[o+1], img.Pix[o+2] = uint8(100+rng.Intn(8)), uint8(100+rng.Intn(8)), uint8(100+rng.Intn(8))
+					} else {
+						img.Pix[o], img.Pix[o+1], img.Pix[o+2] = uint8(rng.Intn(256)), uint8(rng.Intn(256)), uint8(rng.Intn(256))
+					}
+					img.Pix[o+3] = 255
+				}
+			}
+			for _, q := range []float32{50, 75} {
+				name := fmt.Sprintf("%dx%d banded noise (quiet above row %d, busy below), lossless q%v m%d", b.w, b.h, b.split, q, b.method)
+				out, err, pan := safeEncode(img, &webp.EncoderOptions{Lossless: true, Quality: q, Method: b.method})
+				run.Eval(name)
+				if pan != nil || err != nil {
+					run.Violate("encode-fails|banded", fmt.Sprintf("%s: err=%v panic=%v", name, err, pan), name)
+					continue
+				}
+				dec, derr := guardedDecode(out)
+				if derr != nil {
+					run.Violate(fmt.Sprintf("decode-fails|banded|m%d", b.method), name+": "+derr.Error(), name)
+					continue
+				}
+				if got, ok := dec.(*image.NRGBA); !ok || got.Bounds() != img.Bounds() || !bytes.Equal(got.Pix, img.Pix) {
+					run.Violate(fmt.Sprintf("pixels|banded|m%d", b.method), name+": the round trip does not reproduce the picture", name)
+				}
+			}
+		}
+	}
 	// pictures larger than the LZ77 window (2^20 - 120 pixels at Quality > 75, width << 8 / << 6 / << 4 below) whose
 	// tail repeats runs that lie exactly at, just inside and just outside the window limit of each quality class
 	{
